@@ -6,6 +6,7 @@ import (
 	"io"
 	"runtime"
 	"strings"
+	"sync/atomic"
 	"testing/synctest"
 	"time"
 	"unsafe"
@@ -45,7 +46,8 @@ type c12 struct {
 	sink          *zsim.SimSink
 	bws           *zapcore.BufferedWriteSyncer
 	size          int
-	ev            int64 // harness event counter: every invoke and return gets a fresh number
+	ev            int64        // harness event counter: every invoke and return gets a fresh number (see next)
+	inOp          atomic.Int32 // named tasks currently inside a Write/Sync/Stop of the syncer
 	progs         [][]*c12op
 	writes        []*c12op // by id
 	firstStopInv  int64
@@ -58,8 +60,7 @@ type c12 struct {
 }
 
 type c12tick struct {
-	at      int64 // harness event number of delivery
-	sawWork bool
+	at int64 // harness event number of delivery
 }
 
 func (w *c12) payload(op *c12op) []byte {
@@ -244,8 +245,7 @@ func runC12(c *Ctx) {
 		},
 		Fire: func() {
 			ticks++
-			w.ev++
-			w.ticksPending = append(w.ticksPending, c12tick{at: w.ev})
+			w.ticksPending = append(w.ticksPending, c12tick{at: w.next()})
 			c.Fault("tick")
 			if r.Held(unsafe.Pointer(w.bws)) || r.Held(muAddr(w.bws)) {
 				r.Probe("tick delivered while a caller holds the lock")
@@ -384,10 +384,17 @@ func (w *c12) dead() {
 	}
 }
 
+// next hands out event numbers. It is atomic because a syncer whose lock is
+// not one of the modelled primitives (a channel used as a semaphore, say) hands
+// the lock over in real time: for a moment the releasing and the released task
+// both run.
+func (w *c12) next() int64 { return atomic.AddInt64(&w.ev, 1) }
+
 func (w *c12) exec(op *c12op) {
 	c := w.c
-	w.ev++
-	op.inv = w.ev
+	op.inv = w.next()
+	w.inOp.Add(1)
+	defer w.inOp.Add(-1)
 	switch op.kind {
 	case 'W':
 		p := w.payload(op)
@@ -397,8 +404,7 @@ func (w *c12) exec(op *c12op) {
 			p[i] = 0x7E
 		}
 		w.dead()
-		w.ev++
-		op.ret, op.gotN, op.err = w.ev, n, err
+		op.ret, op.gotN, op.err = w.next(), n, err
 		if err != nil || n != len(p) {
 			c.Fail("C12: Write on a healthy sink did not accept the whole payload", "Write#%d(len %d) returned (%d, %v)", op.id, len(p), n, err)
 		}
@@ -406,8 +412,7 @@ func (w *c12) exec(op *c12op) {
 		inv := op.inv
 		err := w.bws.Sync()
 		w.dead()
-		w.ev++
-		op.ret, op.err = w.ev, err
+		op.ret, op.err = w.next(), err
 		if err != nil {
 			c.Fail("C12-D: Sync returned an error on a healthy sink", "Sync: %v", err)
 			return
@@ -421,8 +426,7 @@ func (w *c12) exec(op *c12op) {
 		err := w.bws.Stop()
 		w.dead()
 		w.stopsInFlight--
-		w.ev++
-		op.ret, op.err = w.ev, err
+		op.ret, op.err = w.next(), err
 		if err != nil {
 			c.Fail("C12-E: Stop returned an error on a healthy sink", "Stop: %v", err)
 			return
@@ -524,18 +528,16 @@ func (w *c12) onStep(clk *zsim.SimClock) {
 			return
 		}
 	}
-	// F: a delivered tick has been processed when the flush goroutine is idle
-	// again and the tick is consumed
+	// F: a delivered tick has been processed when it is consumed, the flush
+	// goroutine is not parked inside the simulator, and no task is inside an
+	// operation of the syncer - so that nobody can be holding the syncer's lock,
+	// whatever it is made of, and the flush goroutine (durably blocked, like
+	// everything at this point) can only be waiting for its next tick
 	if len(w.ticksPending) > 0 && len(clk.Tickers) > 0 {
 		tk := clk.Tickers[0]
 		busy := c.R.BGParkedIn(tk.Owner, tk.OwnerLen)
-		tp := &w.ticksPending[0]
-		if busy {
-			tp.sawWork = true
-			return
-		}
-		if len(tk.C) == 0 && tp.sawWork {
-			at := tp.at
+		if !busy && len(tk.C) == 0 && w.inOp.Load() == 0 {
+			at := w.ticksPending[0].at
 			w.ticksPending = w.ticksPending[1:]
 			w.checkAllDelivered("flush tick", at)
 			c.R.Probe("flush tick processed")
